@@ -140,6 +140,7 @@ type SignConfig struct {
 	Groups   []uint32
 	Objects  [][]uint32
 	TimeMode int // 0 OptSignWithTime then OptSignDeterministic, 1 OptSignWithTime only, 2 neither, 3 OptSignDeterministic only
+	NoSalt   bool // OptSignWithoutPGPSignatureSalt
 }
 
 func (c SignConfig) String() string {
@@ -151,6 +152,9 @@ func (c SignConfig) signerOpts(k *Keys) []integrity.SignerOpt {
 	opts := signerOptsT(k, s, c.TimeMode)
 	for _, ids := range c.Objects {
 		opts = append(opts, integrity.OptSignObjects(ids...))
+	}
+	if c.NoSalt {
+		opts = append(opts, integrity.OptSignWithoutPGPSignatureSalt())
 	}
 	return opts
 }
